@@ -208,7 +208,7 @@ func C08Plan(tier string) *harness.Plan {
 	pn := 3
 	budget := 150 * time.Second
 	if tier == "thorough" {
-		maxT, pn, budget = 5, 4, 40*time.Minute
+		maxT, pn, budget = 5, 4, 25*time.Minute
 	}
 	var templates [][]byte
 	space.Words(c08TemplateSyms, maxT, func(b []byte) { templates = append(templates, append([]byte(nil), b...)) })
